@@ -45,6 +45,10 @@ def zoo():
         ("bytes", [b"ab", bytearray(b"cd")]), ("masked", np.ma.MaskedArray([1, 2], [0, 1])), ("dtype", np.dtype("float32")),
         ("sparse", sp.csr_matrix(np.eye(3))), ("tfidf", TfidfTransformer().fit(sp.csr_matrix(np.eye(3)))),
         ("method", StandardScaler().fit(X).transform), ("types", [int, np.float64, len]),
+        # functions that are dispatcher objects in current numpy, plain functions when old archives were written
+        ("np-functions", [np.mean, np.clip, np.nan_to_num, np.linalg.norm, np.where]),
+        ("gens-same-type", [np.random.default_rng(1), np.random.default_rng(2), {"g": np.random.default_rng(3), "h": np.random.Generator(np.random.MT19937(4))},
+                            np.random.Generator(np.random.MT19937(5))]),
     ]
 
 
